@@ -136,6 +136,9 @@ MUTATIONS = [
     ("tlexport/keylog_reader.py", '    key_str = key_str.replace("\\r", "")\n', '', 'get_keys_from_string: carriage returns kept'),
     ("tlexport/keylog_reader.py", '        if key is not None:\n            keys.append(key)', '        if key is not None:\n            keys.insert(0, key)', 'get_keys_from_string: keys in reverse order'),
     ("tlexport/keylog_reader.py", '    if res is not None:\n        return Key(line)', '    if res is None:\n        return Key(line)', 'get_key_from_line: the lines that do NOT match'),
+    ("tlexport/quic/quic_session.py", '            keys["server_initial_key"],\n            keys["server_initial_iv"],\n            keys["client_initial_key"],', '            keys["client_initial_key"],\n            keys["server_initial_iv"],\n            keys["server_initial_key"],', 'set_initial_decryptor: server and client keys swapped'),
+    ("tlexport/quic/quic_session.py", '        dec = QuicDecryptor(dec_keys, AESGCM, early=False)', '        dec = QuicDecryptor(dec_keys, AESGCM, early=True)', 'set_initial_decryptor: Initial decryptor built as an early-data decryptor'),
+    ("tlexport/quic/quic_session.py", '        if keys is None:\n            self.can_decrypt = False\n            return\n\n        dec_keys', '        if keys is None:\n            return\n\n        dec_keys', 'set_initial_decryptor: can_decrypt kept when no keys'),
     # group QuicTls: quic_tls_parser.py
     ("tlexport/quic/quic_tls_parser.py", "            if p_type == 0x2ab2:", "            if p_type == 0x2ab3:", "get_quic_transport_parameters: grease_quic_bit under the wrong id"),
     ("tlexport/quic/quic_tls_parser.py", "            extension_body = extension_body[index + parameter_length:]", "            extension_body = extension_body[index + parameter_length + 1:]", "get_quic_transport_parameters: a byte skipped after each parameter"),
@@ -310,7 +313,7 @@ def group_of(what):
         return ["Keylog"]
     if fn.startswith("main."):
         return ["Demux", "Main2"] if "(fragment)" in what else ["Main2"]
-    if fn in ("decrypt_packet", "handle_frame", "QuicSession.handle_quic_packet", "handle_crypto_frame", "QuicSession.handle_packet"):
+    if fn in ("decrypt_packet", "handle_frame", "QuicSession.handle_quic_packet", "handle_crypto_frame", "QuicSession.handle_packet", "set_initial_decryptor"):
         return ["QuicSess2"]
     if fn in ("get_quic_transport_parameters", "get_extensions", "handle_client_hello", "handle_server_hello", "handle_encrypted_extensions", "handle_record"):
         return ["QuicTls"]
